@@ -24,7 +24,7 @@ ASSUMPTIONS = ['NaN is excluded (== is the oracle)', 'hang guard 40 s for wait()
 SHRINK = 'none'
 TIME_BUDGET = {'quick': 170, 'thorough': 1700}
 REQUIRED = {'quick': {'size<=64K': 12, 'size>208K': 12, 'falsy_result': 30, 'exception': 40, 'not_run': 20, 'route:create': 40, 'main_script': 3, 'timed_wait': 100},
-            'thorough': {'size<=64K': 600, 'size>208K': 200, 'falsy_result': 300, 'exception': 400, 'not_run': 200, 'main_script': 30}}
+            'thorough': {'size<=64K': 150, 'size>208K': 60, 'falsy_result': 300, 'exception': 400, 'not_run': 200, 'main_script': 30}}
 GUARD = 40.0
 
 _leaf = st.one_of(st.none(), st.booleans(), st.integers(-10**12, 10**12), st.sampled_from([0, 0.0, '', 1.5, -0.0]), st.text(max_size=8),
